@@ -1382,7 +1382,8 @@ func checkHelper(c *HelperCase, count bool) error {
 }
 
 var helperCodes = []int{200, 201, 202, 400, 404, 500, 503}
-var redirectCodes = []int{300, 301, 302, 303, 304, 305, 307, 308, 299, 309, 200, 404, 100, 0, 399}
+// every code of the accepted range one by one (306 included: reserved, but inside 300..308), both neighbours, and a few far ones
+var redirectCodes = []int{300, 301, 302, 303, 304, 305, 306, 307, 308, 298, 299, 309, 310, 200, 404, 100, 0, 399, -1, 1308}
 var contentTypes = []string{"application/json", "text/plain; charset=utf-8", "application/octet-stream", "image/png", "x/y"}
 var redirectURLs = []string{"https://example.com/a?b=c", "/clean/path", "/", "http://other.test/", "/a/b?x=1&y=2"}
 var formats = []struct {
